@@ -3,7 +3,7 @@
    OCaml's own; N, positive, nat, ascii, string, comparison stay Coq datatypes. *)
 Require Extraction.
 Require ExtrOcamlBasic.
-From RC Require Import Base.Res Base.Wire Model.Enums Gen.EnumTables Gen.Merge Model.Open Model.Negotiate Gen.CmpChain Model.Select Model.Nlri Model.NlriOrd Model.AsPath Gen.AttrRules Model.Attr Model.Update Gen.BuilderConsts Model.Builder Model.PaMap Gen.CapRules Model.OpenMsg.
+From RC Require Import Base.Res Base.Wire Model.Enums Gen.EnumTables Gen.Merge Model.Open Model.Negotiate Gen.CmpChain Model.Select Model.Nlri Model.NlriOrd Model.AsPath Gen.AttrRules Model.Attr Model.Update Gen.BuilderConsts Model.Builder Model.PaMap Gen.CapRules Model.OpenMsg Gen.FsmTable Model.Fsm.
 Extraction Language OCaml.
 Set Extraction KeepSingleton.
 Extraction "../ocaml/model.ml"
@@ -38,4 +38,6 @@ Extraction "../ocaml/model.ml"
   OpenMsg.o_software_version OpenMsg.notif_check OpenMsg.n_code OpenMsg.n_subcode OpenMsg.n_data OpenMsg.notif_build
   OpenMsg.keepalive_check OpenMsg.keepalive_build OpenMsg.rr_parse OpenMsg.msg_dispatch OpenMsg.ob_new OpenMsg.ob_set_asn
   OpenMsg.ob_add_cap OpenMsg.ob_four_octet OpenMsg.ob_add_mp OpenMsg.ob_add_addpath OpenMsg.ob_finish Wire.index
+  Fsm.fsm_step Fsm.handle_msg Fsm.tick_msg Fsm.init Fsm.dummy_open Fsm.parse_frame Fsm.feed Fsm.read_message Fsm.upd_st Fsm.upd_conn Fsm.push_app Negotiate.get_addpath
+  Negotiate.sc_modern
   EnumTables.all_enum_widths EnumTables.all_enum_names.
